@@ -446,7 +446,11 @@ func runC04(c *Ctx) {
 		c.check(okP, "C04.v4.parse", f, "reverseIPv4 is the permutation k -> 3-k", nil, perm)
 	}
 	// ---- R4 encoder ----
-	if f := c.fn("netutil", "IPToReversedAddr"); f != nil {
+	if f := c.fn("netutil", "IPToReversedAddr"); f != nil && c04EncoderExact(c, f) {
+		// decided exactly (c04enc.go); the structural rules below are the
+		// fall-back for an encoder outside the evaluator's grammar
+		c.L.Floor("C04.codec-tables", 0)
+	} else if f != nil {
 		var v4, v6 *ssa.Function
 		for _, af := range f.AnonFuncs {
 			if len(core.CallsTo(af, "strconv.Itoa")) > 0 {
@@ -717,6 +721,14 @@ func constStrOf(v ssa.Value) (string, bool) {
 func suffixGuard(in ssa.Instruction) (x ssa.Value, t string, at ssa.Instruction, ok bool) {
 	for _, g := range core.GuardsOf(in) {
 		cond, truth := core.StripNot(g.Cond, g.Truth)
+		if ex, isEx := cond.(*ssa.Extract); isEx && truth && ex.Index == 1 {
+			// before, ok := strings.CutSuffix(x, "const"): ok is HasSuffix
+			if cs, isC := ex.Tuple.(*ssa.Call); isC && core.CalleeName(&cs.Call) == "strings.CutSuffix" {
+				if s, isK := constStrOf(cs.Call.Args[1]); isK {
+					return cs.Call.Args[0], s, cs, true
+				}
+			}
+		}
 		call, isCall := cond.(*ssa.Call)
 		if !isCall || !truth || core.CalleeName(&call.Call) != "strings.HasSuffix" {
 			continue
@@ -726,6 +738,48 @@ func suffixGuard(in ssa.Instruction) (x ssa.Value, t string, at ssa.Instruction,
 		}
 	}
 	return nil, "", nil, false
+}
+
+// suffixCut: arg is x with its last K bytes removed — x[:len(x)-K],
+// strings.TrimSuffix(x, "K bytes") (under a HasSuffix guard the trim always
+// happens; the texts are compared by the caller through K and the guard), or
+// the first result of the strings.CutSuffix call that is the guard.  K < 0
+// when arg has none of these forms.
+func suffixCut(arg, x ssa.Value, guard ssa.Instruction) int64 {
+	switch a := arg.(type) {
+	case *ssa.Slice:
+		if a.X == x && a.Low == nil && a.High != nil {
+			if b, ok := a.High.(*ssa.BinOp); ok && b.Op == token.SUB {
+				if lc, ok := b.X.(*ssa.Call); ok && core.CalleeName(&lc.Call) == "builtin.len" && lc.Call.Args[0] == x {
+					if k, ok := core.ConstInt(b.Y); ok {
+						return k
+					}
+				}
+			}
+		}
+	case *ssa.Call:
+		if core.CalleeName(&a.Call) == "strings.TrimSuffix" && a.Call.Args[0] == x {
+			if gc, ok := guard.(*ssa.Call); ok && len(gc.Call.Args) == 2 {
+				// trimmed text must be the tested text, otherwise nothing (or
+				// something else) is cut
+				if s, isK := constStrOf(a.Call.Args[1]); isK {
+					if t, isT := constStrOf(gc.Call.Args[1]); isT && s == t {
+						return int64(len(s))
+					}
+					return -2
+				}
+			}
+		}
+	case *ssa.Extract:
+		if a.Index == 0 && ssa.Value(a.Tuple) != nil {
+			if gc, ok := guard.(*ssa.Call); ok && a.Tuple == ssa.Value(gc) && core.CalleeName(&gc.Call) == "strings.CutSuffix" {
+				if s, isK := constStrOf(gc.Call.Args[1]); isK {
+					return int64(len(s))
+				}
+			}
+		}
+	}
+	return -1
 }
 
 // c04Dispatch: the suffix the decoder tests is the suffix the encoder appends,
@@ -741,7 +795,7 @@ func c04Dispatch(c *Ctx, dec *ssa.Function) {
 			}
 			n++
 			what := sprintf("%s(...) only under HasSuffix(name, %q), with exactly those bytes cut", sp.callee, sp.suffix)
-			x, t, _, ok := suffixGuard(ci)
+			x, t, guard, ok := suffixGuard(ci)
 			if !ok {
 				c.undecided("C04.dispatch", dec, what, ci, "no strings.HasSuffix test with a constant suffix dominates the call")
 				continue
@@ -795,16 +849,10 @@ func c04Dispatch(c *Ctx, dec *ssa.Function) {
 				c.check(arg == x, "C04.dispatch", dec, what, ci, "the whole tested name is handed to the fixed-position scanner")
 				continue
 			}
-			sl, isSl := arg.(*ssa.Slice)
-			cut := int64(-1)
-			if isSl && sl.X == x && sl.Low == nil && sl.High != nil {
-				if b, ok := sl.High.(*ssa.BinOp); ok && b.Op == token.SUB {
-					if lc, ok := b.X.(*ssa.Call); ok && core.CalleeName(&lc.Call) == "builtin.len" && lc.Call.Args[0] == x {
-						if k, ok := core.ConstInt(b.Y); ok {
-							cut = k
-						}
-					}
-				}
+			cut := suffixCut(arg, x, guard)
+			if cut == -2 {
+				c.check(false, "C04.dispatch", dec, what, ci, "the text trimmed off is not the text tested for")
+				continue
 			}
 			if cut < 0 {
 				c.undecided("C04.dispatch", dec, what, ci, "the argument is not name[:len(name)-K] of the tested name")
@@ -1177,7 +1225,14 @@ func runC05(c *Ctx) {
 		}
 		c05Skeleton(c, v4, 8, false)
 	}
-	if v6 != nil {
+	// the octet test behind indexFirstV4Label (ExtractReversedAddr)
+	v4LabelExact(c, "C05")
+	v6exact := c05PrefixV6Exact(c)
+	if v6exact {
+		// the IPv6 half of the skeleton rules is subsumed by the exact decision
+		c.L.Floor("C05.skeleton", 4)
+	}
+	if v6 != nil && !v6exact {
 		c05Skeleton(c, v6, 4, true)
 		c05NibbleStart(c, v6)
 	}
